@@ -365,4 +365,34 @@ Section S.
     eapply Forall2_imp; [|exact Hd]. intros x y (it & Hi & Hx & Hy & Hw).
     exists it. subst y. cbn. repeat split; auto.
   Qed.
+  (** ** whenever the loop goroutine has run, s.when is the due time of the minimum *)
+  Definition when_is_min (st : state) : Prop :=
+    swhen st = option_map i_when (hd_error (q st)).
+
+  Lemma loop_when : forall fuel st, (fuel = 0%nat -> when_is_min st) ->
+    when_is_min (fst (loop nxt wk parked true fuel st)).
+  Proof.
+    induction fuel as [|f IH]; intros st H0; cbn [loop].
+    - cbn. apply H0. reflexivity.
+    - destruct (q st) as [|it r] eqn:Eq.
+      { unfold when_is_min. cbn. rewrite Eq. reflexivity. }
+      destruct (now st <? i_when it)%Z.
+      { unfold when_is_min. cbn. rewrite Eq. reflexivity. }
+      destruct (pass nxt wk parked st) as [st1 ex].
+      destruct (q st1) as [|it2 r2] eqn:Eq1.
+      { unfold when_is_min. cbn. rewrite Eq1. reflexivity. }
+      destruct (0 <? i_when it2 - now st1)%Z.
+      { unfold when_is_min. cbn. rewrite Eq1. cbn. f_equal. lia. }
+      destruct ex as [|x xs].
+      { unfold when_is_min. cbn. rewrite Eq1. reflexivity. }
+      assert (Hw : when_is_min (set_idle st1 (Some (i_when it2)) (timer st1) false)).
+      { unfold when_is_min. cbn. rewrite Eq1. reflexivity. }
+      specialize (IH (set_idle st1 (Some (i_when it2)) (timer st1) false) (fun _ => Hw)).
+      destruct (loop nxt wk parked true f (set_idle st1 (Some (i_when it2)) (timer st1) false)) as [st2 o2].
+      cbn [fst] in *. exact IH.
+  Qed.
+
+  Lemma loop_when_top st :
+    when_is_min (fst (loop nxt wk parked true (fuel_of st) st)).
+  Proof. apply loop_when. unfold fuel_of. discriminate. Qed.
 End S.
